@@ -40,6 +40,16 @@ func init() {
 			"(R19.3 = R20.4) only destinations and backups are mutated; (R19.4) the bundle separator \";\\n\" is passed exactly under the JavaScript media type test; (R19.5 = R20.5) a file minified onto itself leaves no backup behind because the backup's creation and removal names agree.",
 		Run: runC19,
 	})
+	mutant(&Mutant{Name: "c19-separator-from-start", Property: "C19", File: "cmd/minify/io.go",
+		Old: "m := copy(p, r.sep[len(r.sep)-r.sepLeft:])", New: "m := copy(p, r.sep[:r.sepLeft])",
+		Rule: "R19.8", Construct: "copy of the pending"})
+	mutant(&Mutant{Name: "c19-bundle-takes-last-file", Property: "C19", File: "cmd/minify/io.go",
+		Old: "\t\t\tfilename, r.filenames = r.filenames[0], r.filenames[1:]\n", New: "\t\t\tfilename, r.filenames = r.filenames[len(r.filenames)-1], r.filenames[:len(r.filenames)-1]\n",
+		Rule: "R19.8", Construct: "next file is the first"})
+	mutant(&Mutant{Name: "c19-separator-armed-after-last", Property: "C19", File: "cmd/minify/io.go",
+		Old: "\t\t\tr.sepLeft = len(r.sep)\n\n", New: "\n",
+		Old2: "\t\tr.cur = nil\n\n", New2: "\t\tr.cur = nil\n\t\tr.sepLeft = len(r.sep)\n\n",
+		Rule: "R19.8", Construct: "separator armed"})
 	mutant(&Mutant{Name: "c20-truncate-before-backup", Property: "C20", File: "cmd/minify/main.go",
 		Old:  "\t\t\t\tif err != nil {\n\t\t\t\t\tError.Println(err)\n\t\t\t\t\treturn false\n\t\t\t\t}\n\t\t\t\tbreak\n\t\t\t}\n\t\t}\n\t}\n",
 		New:  "\t\t\t\tif err != nil {\n\t\t\t\t\tError.Println(err)\n\t\t\t\t}\n\t\t\t\tbreak\n\t\t\t}\n\t\t}\n\t}\n",
@@ -867,6 +877,96 @@ func runC19(c *Ctx) {
 	c.r205(x, "R19.5")
 	c.r196(x)
 	c.r206(x, "R19.7")
+	c.r198(x)
+}
+
+// R19.8: the bundle reader delivers files in order with the whole separator between them.
+func (c *Ctx) r198(x *cliCtx) {
+	const rule = "R19.8"
+	c.R.Rule(rule, "concatFileReader (the reader behind --bundle): (a) every copy out of the separator field S with countdown field L (the field decremented by the copy's result) reads S[len(S)-L:] — the not-yet-delivered suffix — so a separator split over two Read calls is delivered completely and in order; (b) L is (re)armed with len(S) only after a next file was opened, i.e. between two files, never before the first or after the last; (c) files are taken from the front of the list: the opened name is filenames[0] and the remainder filenames[1:]")
+	pk, info := x.pk, x.info
+	tn, _ := pk.Types.Scope().Lookup("concatFileReader").(*types.TypeName)
+	if tn == nil {
+		c.R.Unres(rule, "cmd/minify.concatFileReader", "-", "type not found")
+		return
+	}
+	nCopies, nArm, nTake := 0, 0, 0
+	for _, fd := range load.FuncDecls(pk) {
+		if fd.Body == nil {
+			continue
+		}
+		isMethod := load.RecvName(fd) == "concatFileReader"
+		isCtor := fd.Name.Name == "newConcatFileReader"
+		if !isMethod && !isCtor {
+			continue
+		}
+		g := c.graph(pk, fd)
+		for _, y := range g.Nodes {
+			as, ok := y.Stmt.(*ast.AssignStmt)
+			if !ok || y.Kind != flow.KStmt {
+				continue
+			}
+			// (a) m := copy(p, r.S[...]) followed by r.L -= m
+			if len(as.Rhs) == 1 {
+				if call, isCall := ast.Unparen(as.Rhs[0]).(*ast.CallExpr); isCall {
+					if id, isId := call.Fun.(*ast.Ident); isId && id.Name == "copy" && len(call.Args) == 2 {
+						if sl, isSl := ast.Unparen(call.Args[1]).(*ast.SliceExpr); isSl {
+							if typ, fld := fieldOf(info, sl.X); strings.HasSuffix(typ, "concatFileReader") {
+								nCopies++
+								S := str(sl.X)
+								// the countdown: a statement `X -= <result>` right after
+								L := ""
+								res := str(as.Lhs[0])
+								for _, z := range g.Nodes {
+									if a2, ok2 := z.Stmt.(*ast.AssignStmt); ok2 && a2.Tok == token.SUB_ASSIGN && len(a2.Rhs) == 1 && str(a2.Rhs[0]) == res {
+										L = str(a2.Lhs[0])
+									}
+								}
+								want := "len(" + S + ")-" + L
+								okLow := sl.Low != nil && nospace(str(sl.Low)) == nospace(want)
+								okHigh := sl.High == nil || nospace(str(sl.High)) == "len("+S+")"
+								c.R.Check(L != "" && okLow && okHigh, rule, "cmd/minify."+load.FuncName(fd)+"/copy of the pending "+fld, c.pos(call), "reads "+S+"["+want+":]", "the pending part of the separator is read as "+str(call.Args[1])+", not "+S+"["+want+":]: when the caller's buffer ends inside the separator the remaining bytes are wrong (`;\\n` arrives as `;;`, joining the last line of one file with the first of the next)")
+							}
+						}
+					}
+				}
+			}
+			// (b) r.L = len(r.S)
+			for i, l := range as.Lhs {
+				if typ, fld := fieldOf(info, l); strings.HasSuffix(typ, "concatFileReader") && fld == "sepLeft" && as.Tok == token.ASSIGN && i < len(as.Rhs) {
+					nArm++
+					opened := false
+					for _, f := range g.DomFacts(y) {
+						if f.Test.Kind == flow.KCond && f.Value && nospace(str(f.Test.Expr)) == "0<len(r.filenames)" {
+							opened = true
+						}
+					}
+					okVal := nospace(str(as.Rhs[i])) == "len(r.sep)"
+					// and an opener call must precede it with its error tested
+					var afterOpen bool
+					for _, z := range g.Nodes {
+						if z.Kind == flow.KStmt && z.Ast() != nil && strings.Contains(str0(z.Ast()), "opener(") && g.Dominates(z, y) {
+							afterOpen = true
+						}
+					}
+					c.R.Check(opened && okVal && afterOpen, rule, "cmd/minify."+load.FuncName(fd)+"/separator armed between files", c.pos(as), "len(r.sep) after the next file was opened", "the separator countdown is set to "+str(as.Rhs[i])+" at a point that is not `a next file exists and was opened`: a separator would be emitted before the first / after the last file, or only in part")
+				}
+			}
+			// (c) filename, list = list[0], list[1:]
+			if len(as.Lhs) == 2 && len(as.Rhs) == 2 {
+				if ix, isIx := ast.Unparen(as.Rhs[0]).(*ast.IndexExpr); isIx {
+					if sl, isSl := ast.Unparen(as.Rhs[1]).(*ast.SliceExpr); isSl && str(ix.X) == str(sl.X) && strings.HasSuffix(str(ix.X), "filenames") {
+						nTake++
+						okTake := str(ix.Index) == "0" && sl.Low != nil && str(sl.Low) == "1" && sl.High == nil && str(as.Lhs[1]) == str(ix.X)
+						c.R.Check(okTake, rule, "cmd/minify."+load.FuncName(fd)+"/next file is the first of the list", c.pos(as), "filenames[0], filenames[1:]", "the next file is taken as "+str(as.Rhs[0])+" and the list continued as "+str(as.Rhs[1])+": inputs are not concatenated in the order given")
+					}
+				}
+			}
+		}
+	}
+	c.R.Floor(rule, "separator copies", nCopies, 1)
+	c.R.Floor(rule, "separator arming sites", nArm, 1)
+	c.R.Floor(rule, "file-taking sites", nTake, 2)
 }
 
 // R19.6: a failed write of the destination is a failure of the task.
